@@ -29,6 +29,8 @@
 #ifndef REALBPP
 #define REALBPP BPP
 #endif
+/* bytes of one CPIXEL on the wire: 15-bit pixels travel in 2 bytes */
+#define REALBYTES ((REALBPP + 7) / 8)
 
 #if !defined(UNCOMP) || UNCOMP == 0
 #define HandleTRLE CONCAT2E(HandleTRLE, REALBPP)
@@ -53,7 +55,7 @@
 static rfbBool HandleTRLE(rfbClient *client, int rx, int ry, int rw, int rh) {
   int x, y, w, h;
   uint8_t type, last_type = 0;
-  int min_buffer_size = 16 * 16 * (REALBPP / 8) * 2;
+  int min_buffer_size = 16 * 16 * REALBYTES * 2;
   uint8_t *buffer;
   CARDBPP palette[128];
   int bpp = 0, mask = 0, divider = 0;
@@ -93,14 +95,14 @@ static rfbBool HandleTRLE(rfbClient *client, int rx, int ry, int rw, int rh) {
 
       switch (type) {
       case 0: {
-        if (!ReadFromRFBServer(client, (char *)buffer, w * h * REALBPP / 8))
+        if (!ReadFromRFBServer(client, (char *)buffer, w * h * REALBYTES))
           return FALSE;
 #if REALBPP != BPP
         int i, j;
 
         for (j = y * client->width; j < (y + h) * client->width;
              j += client->width)
-          for (i = x; i < x + w; i++, buffer += REALBPP / 8)
+          for (i = x; i < x + w; i++, buffer += REALBYTES)
             ((CARDBPP *)client->frameBuffer)[j + i] = UncompressCPixel(buffer);
 #else
         client->GotBitmap(client, buffer, x, y, w, h);
@@ -109,7 +111,7 @@ static rfbBool HandleTRLE(rfbClient *client, int rx, int ry, int rw, int rh) {
         break;
       }
       case 1: {
-        if (!ReadFromRFBServer(client, (char *)buffer, REALBPP / 8))
+        if (!ReadFromRFBServer(client, (char *)buffer, REALBYTES))
           return FALSE;
 
         color = UncompressCPixel(buffer);
@@ -171,11 +173,11 @@ static rfbBool HandleTRLE(rfbClient *client, int rx, int ry, int rw, int rh) {
         while (j < h) {
 	  int color, length, buffer_pos = 0;
           /* read color */
-          if (!ReadFromRFBServer(client, (char*)buffer, REALBPP / 8 + 1))
+          if (!ReadFromRFBServer(client, (char*)buffer, REALBYTES + 1))
             return FALSE;
           color = UncompressCPixel(buffer);
-          buffer += REALBPP / 8;
-	  buffer_pos += REALBPP / 8;
+          buffer += REALBYTES;
+	  buffer_pos += REALBYTES;
           /* read run length */
           length = 1;
           while (*buffer == 0xff && buffer_pos < client->raw_buffer_size-1) {
@@ -260,11 +262,11 @@ static rfbBool HandleTRLE(rfbClient *client, int rx, int ry, int rw, int rh) {
           bpp = (type > 4 ? 4 : (type > 2 ? 2 : 1)),
           mask = (1 << bpp) - 1, divider = (8 / bpp);
 
-          if (!ReadFromRFBServer(client, (char *)buffer, type * REALBPP / 8))
+          if (!ReadFromRFBServer(client, (char *)buffer, type * REALBYTES))
             return FALSE;
 
           /* read palette */
-          for (i = 0; i < type; i++, buffer += REALBPP / 8)
+          for (i = 0; i < type; i++, buffer += REALBYTES)
             palette[i] = UncompressCPixel(buffer);
 
           last_type = type;
@@ -272,11 +274,11 @@ static rfbBool HandleTRLE(rfbClient *client, int rx, int ry, int rw, int rh) {
         } else if (type >= 130) {
           int i;
 
-          if (!ReadFromRFBServer(client, (char *)buffer, (type - 128) * REALBPP / 8))
+          if (!ReadFromRFBServer(client, (char *)buffer, (type - 128) * REALBYTES))
             return FALSE;
 
           /* read palette */
-          for (i = 0; i < type - 128; i++, buffer += REALBPP / 8)
+          for (i = 0; i < type - 128; i++, buffer += REALBYTES)
             palette[i] = UncompressCPixel(buffer);
 
           last_type = type;
@@ -296,4 +298,5 @@ static rfbBool HandleTRLE(rfbClient *client, int rx, int ry, int rw, int rh) {
 #undef HandleTRLE
 #undef UncompressCPixel
 #undef REALBPP
+#undef REALBYTES
 #undef UNCOMP
